@@ -729,7 +729,7 @@ func (dru *dirRepoUpload) Close() error {
 		return errors.Join(err, os.Remove(dru.filename))
 	}
 	if dru.expect != "" && dru.d.Digest() != dru.expect {
-		return errors.Join(fmt.Errorf("digest mismatch, expected %s, received %s", dru.expect, dru.d.Digest()),
+		return errors.Join(fmt.Errorf("digest mismatch, expected %s, received %s%.0w", dru.expect, dru.d.Digest(), types.ErrDigestMismatch),
 			os.Remove(dru.filename))
 	}
 	// move temp file to blob store
